@@ -20,6 +20,7 @@ mod resmon;
 mod resource;
 mod tamper;
 mod recorded;
+mod stmtbind;
 mod trace;
 mod stone;
 
@@ -79,6 +80,7 @@ fn main() {
         "parserres" => Some(parser_resource::run(&args)),
         "protocol" => Some(protocol::run(&args)),
         "dynprofile" => Some(dynprofile::run(&args)),
+        "stmtbind" => Some(stmtbind::run(&args)),
         _ => vcomp::dispatch(&args),
     };
     match rep {
